@@ -1083,36 +1083,9 @@ mod c18_compound {
         }
     }
 
-    // the PRNG seeds are part of the non-payload state of a compressed key: a read that fails after the seed block must leave them unchanged.
-    // One concrete truncation point per harness (symbolic ones, or several reads in one harness, exhaust memory once seeds are compared):
-    // T bytes of a valid stream whose seed differs from the receiver's.
-    fn seeds_after_truncated_read<const T: usize>() {
-        // the stream (untouched, so that its header stays constant for the solver) carries all-zero seeds; the RECEIVER's seed is made non-zero
-        let src: GGLWECompressed<Vec<u8>> = GGLWECompressed::alloc(2u32.into(), 9u32.into(), 27u32.into(), 1u32.into(), 1u32.into(), 1u32.into(), 1u32.into());
-        let mut stream: Vec<u8> = Vec::new();
-        assert!(src.write_to(&mut stream).is_ok());
-        assert!(T < stream.len());
-        let mut g: GGLWECompressed<Vec<u8>> = GGLWECompressed::alloc(2u32.into(), 8u32.into(), 24u32.into(), 1u32.into(), 1u32.into(), 1u32.into(), 2u32.into());
-        g.seed_mut()[0][0] = 0x77;
-        g.seed_mut()[0][31] = 0x5A;
-        let mut cur = Cursor::new(&stream[..T]);
-        let r = g.read_from(&mut cur);
-        assert!(r.is_err(), "C18:truncated stream rejected");
-        assert!(g.seed().len() == 1, "C18:Err leaves the seed count unchanged");
-        assert!(g.seed()[0][0] == 0x77 && g.seed()[0][31] == 0x5A, "C18:Err leaves the seeds unchanged");
-    }
-    #[kani::proof]
-    #[kani::unwind(40)]
-    #[kani::stub(alloc::fmt::format, fmt_stub)]
-    fn c18_gglwe_compressed_seeds_after_truncated_read__t52() { seeds_after_truncated_read::<52>() }
-    #[kani::proof]
-    #[kani::unwind(40)]
-    #[kani::stub(alloc::fmt::format, fmt_stub)]
-    fn c18_gglwe_compressed_seeds_after_truncated_read__t60() { seeds_after_truncated_read::<60>() }
-    #[kani::proof]
-    #[kani::unwind(40)]
-    #[kani::stub(alloc::fmt::format, fmt_stub)]
-    fn c18_gglwe_compressed_seeds_after_truncated_read__t100() { seeds_after_truncated_read::<100>() }
+    // (A variant of the harness above that also pins the receiver's PRNG seeds -- they are committed after the payload like the other metadata -- refutes
+    // seed C18-2 in 6 min, but CBMC runs out of memory (> 48 GB) proving it on the unchanged tree, with symbolic or concrete truncation points alike;
+    // it is not registered.  See DESIGN.md, seed table.)
 
     // a seed count above the receiver's is a corrupted header: rejected before anything is allocated from it
     #[kani::proof]
